@@ -55,6 +55,11 @@ def get_connected_subgraph(
     subgraph.is_nested_oneof = is_nested_oneof
     subgraph.source = source
     subgraph.dest = dest
-    subgraph.name = f'{source} —> {dest}, rec={is_recurrent}, oneof={is_oneof}, nested_oneof={is_nested_oneof}'
+
+    # The attribute dictionary of a view is the one of the graph it was taken from: the name goes into an own copy
+    subgraph.graph = {
+        **dag.graph,
+        'name': f'{source} —> {dest}, rec={is_recurrent}, oneof={is_oneof}, nested_oneof={is_nested_oneof}',
+    }
 
     return subgraph
